@@ -70,7 +70,10 @@ fn line_mismatch(what: &str, i: usize, l: &avt::Line, m: &MLine) -> Option<Misma
 /// and (primary screen) the scrollback.  `sb_tail`: how many of the newest scrollback lines to
 /// compare cell by cell (usize::MAX = all).
 pub fn compare_public(vt: &Vt, m: &Model, sb_tail: usize) -> Option<Mismatch> {
-    compare_public_opt(vt, m, sb_tail, false, Above::Exact)
+    // rows above the view of the alternate screen: no property says how long they linger before the
+    // trim that `feed_str` / `resize` perform ("the alternate screen keeps none"), so any newest part of
+    // them - also none - is accepted; what is still there must be unaltered
+    compare_public_opt(vt, m, sb_tail, false, Above::Newest)
 }
 
 /// `trimmed`: the real terminal may have trimmed its scrollback (finite limit, fed through
@@ -78,9 +81,11 @@ pub fn compare_public(vt: &Vt, m: &Model, sb_tail: usize) -> Option<Mismatch> {
 /// What `Vt::lines()` may hold above the view of the alternate screen.
 #[derive(Clone, Copy, PartialEq, Eq, Debug)]
 pub enum Above {
-    /// exactly the rows scrolled off the top since the last trim (per-character `feed`, which never trims)
+    /// exactly the rows scrolled off the top since the last trim
+    #[allow(dead_code)]
     Exact,
-    /// the newest of them (calls that trim and calls that do not were mixed)
+    /// the newest of them, possibly none (per-character `feed` never trims in the pinned code, but
+    /// nothing promises that the rows linger)
     Newest,
     /// nothing: the call that just returned trims
     Nothing,
